@@ -409,3 +409,7 @@ def run(ctx: Context) -> None:
     common.status_not_dropped(ctx, "R18d")
     r18e(ctx)
     common.discovery_flag_consulted(ctx, "R18f")
+    if ctx.tier == "thorough":
+        from sa.rules import driver_exploration
+
+        driver_exploration.c18_predicates(ctx)
